@@ -53,3 +53,47 @@ def ref_retarget_scripts(rng, n):
         sf = len(lines)
         out.append(("ref-retarget-%d" % i, lines + settle_lines(meta), sf))
     return out
+
+
+def multi_frame_removal_scripts(rng, n):
+    """several frames per tick: one entity loses different components in different frames of one tick window, in later windows
+    several entities have removals; every removal must reach the client, and no other entity may lose anything"""
+    out = []
+    for i in range(n):
+        ncl = rng.choice([1, 2])
+        lines = ["cfg policy=%s auth=none track=%d nclients=%d timeout=10000" % (rng.choice(["all", "all", "black"]), rng.randrange(2), ncl), "start", "sframe 0 10"]
+        for c in range(ncl):
+            lines.append("connect %d 1200" % c)
+        nent = rng.randrange(2, 5)
+        comps = {}
+        for e in range(1, nent + 1):
+            comps[e] = {0, 1, 2}
+            lines.append("sop spawn %d 1 0=%d 1=%d 2=%d" % (e, rng.randrange(50), rng.randrange(50), rng.randrange(50)))
+        lines.append("sframe 1 16")
+        for c in range(ncl):
+            lines += ["deliver %d s2c 0 all" % c, "cframe %d" % c, "deliver %d c2s 0 all" % c]
+        for _ in range(rng.randrange(2, 5)):
+            for _ in range(rng.randrange(1, 4)):                 # frames of this tick window
+                for e in rng.sample(sorted(comps), rng.randrange(1, len(comps) + 1)):
+                    if comps[e] and rng.random() < 0.7:
+                        k = rng.choice(sorted(comps[e]))
+                        comps[e].discard(k)
+                        lines.append("sop remove %d %d" % (e, k))
+                    elif rng.random() < 0.3:
+                        lines.append("sop mutate %d %d=%d" % (e, rng.choice([0, 1]), rng.randrange(50, 99)))
+                lines.append("sframe 0 %d" % rng.choice([0, 5, 16]))
+            lines.append("sframe 1 16")
+            for c in range(ncl):
+                if rng.random() < 0.8:
+                    lines += ["deliver %d s2c 0 all" % c, "deliver %d s2c 1 all" % c, "cframe %d" % c, "deliver %d c2s 0 all" % c]
+            # put components back so that later windows can remove again
+            for e in sorted(comps):
+                for k in (0, 1, 2):
+                    if k not in comps[e] and rng.random() < 0.6:
+                        comps[e].add(k)
+                        lines.append("sop insert %d %d=%d" % (e, k, rng.randrange(50)))
+            lines.append("sframe 1 16")
+        meta = dict(connected=list(range(ncl)), events=False)
+        sf = len(lines)
+        out.append(("multi-frame-removals-%d" % i, lines + settle_lines(meta), sf))
+    return out
